@@ -534,7 +534,18 @@ def anchors_rule(chk):
     files_rule(chk, pinned | set(todo))
 
 
-DISPLAY_ONLY = ("__repr__", "__str__", "__format__")
+# Display methods.  Only `__repr__` is exempt from FILE / DEP / DEFS, and not everywhere: hand-written mutants of the display
+# methods showed that most `__str__` / `__format__` bodies of this package are *functional* -- `Date.__format__` and
+# `Date.strftime` print every epoch the TLE / CCSDS writers and the sgp4 bridge emit, `Frame.__str__` is what
+# `COV_REF_FRAME = {frame}` writes, `Tle.__str__` is the TLE writer's output (name line included), the event classes'
+# `__str__` is the label of an event, and `Date.__repr__` (through `__str__` and `Timescale.__str__`) is the KEY of the
+# `memoize` decorator on the IAU tables (`str(args)`): a coarser text makes two dates share one nutation.
+DISPLAY_ONLY = ("__repr__",)
+FUNCTIONAL_REPR = {("beyond/dates/date.py", "Date.__repr__")}
+
+
+def display_only(rel, key):
+    return key.split(".")[-1].split(":")[0] in DISPLAY_ONLY and (rel, key.split(":")[0]) not in FUNCTIONAL_REPR
 
 
 def files_rule(chk, done):
@@ -551,7 +562,7 @@ def files_rule(chk, done):
     todo = []
     for rel in files:
         for key in sorted(ref.get(rel, {}).get("funcs", {})):
-            if (rel, key) in done or key.split(".")[-1].split(":")[0] in DISPLAY_ONLY or (rel, key.split(":")[0]) in ANCHOR_EXEMPT:
+            if (rel, key) in done or display_only(rel, key) or (rel, key.split(":")[0]) in ANCHOR_EXEMPT:
                 continue
             todo.append((rel, key))
         for key in sorted(ref.get(rel, {}).get("scopes", {})):
@@ -578,7 +589,7 @@ def defs_rule(chk, files, patterns):
     found = []
     for rel in files:
         for kind, key in definition_changes(chk.repo, rel):
-            if key.split(".")[-1].split(":")[0] in DISPLAY_ONLY or key.endswith(("#log", "#__all__")):
+            if display_only(rel, key) or key.endswith(("#log", "#__all__")):
                 continue
             if patterns is not None and not any(fnmatch.fnmatchcase(key, p) for p in patterns.get(rel, ())):
                 continue
@@ -598,6 +609,9 @@ _DATE_ARITH = ("beyond/dates/date.py", ["Date.__add__", "Date.__sub__", "Date.__
                                         "Date._convert_dt", "Date._convert_to_scale", "Date.__init__", "Date.change_scale"])
 _DATE_ARGS = ("beyond/dates/date.py", ["Date._julian_century", "Date.julian_century", "Date.change_scale", "Date._convert_to_scale", "Date._mjd",
                                        "Date.mjd", "Date.jd", "Date.d", "Date.s", "Date.__init__", "Timescale.*", "<module>#*"])
+_DATE_PRINT = ("beyond/dates/date.py", ["Date.__format__", "Date.strftime", "Date.__str__", "Date.datetime", "Date._datetime", "Timescale.__str__"])
+_DATE_KEY = ("beyond/dates/date.py", ["Date.__repr__", "Date.__str__", "Timescale.__str__", "Date.datetime", "Date._datetime"])
+_MEMOIZE = ("beyond/utils/memoize.py", ["*"])
 _FORMS = ("beyond/orbits/forms.py", ["*"])
 _SV_CONVERT = ("beyond/orbits/statevector.py", ["StateVector.frame:setter", "StateVector.form:setter", "StateVector.copy", "StateVector.__new__",
                                                 "StateVector.__array_finalize__", "StateVector.__reduce__", "StateVector.__setstate__"])
@@ -611,6 +625,8 @@ DEPS = {
     "C01": [(_CONSTANTS, "the gravitational parameter every conversion reads (`body.µ`) comes from these Body objects")],
     "C02": [(_DATE_ARGS, "the argument of every rotation: julian centuries and days of the date in the scale the model asks for"),
             (_NODE, "the path search between orientations"),
+            (_MEMOIZE, "the IAU tables and the nutation are memoised by this decorator, keyed by `str(args) + str(kwargs)`"),
+            (_DATE_KEY, "the text of a Date is the memo key of `nutation(date, ...)`: two instants must never print alike"),
             (_SV_CONVERT, "`sv.frame = x` / `copy(frame=x)` is the conversion: to cartesian, rotate and translate, back to the original form"),
             (_FORMS, "a frame change goes through the cartesian form and back to the form the state had")],
     "C03": [(("beyond/config.py", ["*"]), "the missing-data policy and the database name are read from this object")],
@@ -629,7 +645,8 @@ DEPS = {
             (_SV_CONVERT, "every step is returned as a copy in the requested frame and form")],
     "C07": [(_DATE_ARITH, "minutes since epoch are a difference of Dates"),
             (_ORBIT_DISPATCH, "`Orbit.propagate` hands the date or the timedelta to the propagator"),
-            (("beyond/propagators/__init__.py", ["*"]), "the propagator registry `Tle.orbit()` resolves Sgp4 through")],
+            (("beyond/propagators/__init__.py", ["*"]), "the propagator registry `Tle.orbit()` resolves Sgp4 through"),
+            (_DATE_PRINT, "the calendar fields handed to the sgp4 library are printed with `Date.__format__`; the TLE epoch likewise")],
     "C08": [(x, "a propagator whose `iter` and `propagate` have to agree") for x in _PROPAGATORS if not x[0].endswith(("keplernum.py", "base.py"))]
            + [(_SV_CONVERT, "every yielded point is a copy of the propagated state")],
     "C09": [(("beyond/dates/date.py", ["Date._mjd", "Date.mjd", "Date.__lt__", "Date.__le__", "Date.__gt__", "Date.__ge__", "Date.__eq__", "Date.__sub__", "Date.__add__"]),
@@ -645,6 +662,7 @@ DEPS = {
             (_FORMS, "the spherical form is the measurement; the frame setter re-expresses the state in its original form")],
     "C12": [(("beyond/dates/date.py", ["Date.__init__", "Date._convert_dt", "Date._convert_to_scale", "Date.datetime", "Date._datetime", "Date.change_scale", "Date.d", "Date.s", "Date.__add__"]),
              "the epoch field is built from and written through these"),
+            (_DATE_PRINT, "the two-digit year of line 1 is printed with `Date.__format__`"),
             (("beyond/orbits/forms.py", ["Form._tle_to_keplerian_mean", "Form._keplerian_mean_to_tle", "Form.__call__", "<module>#TLE", "get_form", "Form.__init__"]),
              "`from_orbit` converts to the TLE form"),
             (("beyond/orbits/orbit.py", ["Orbit.__new__", "Orbit.propagator:setter"]), "`Tle.orbit()` builds the Orbit"),
@@ -656,7 +674,9 @@ DEPS = {
             (("beyond/orbits/statevector.py", ["StateVector.__new__", "StateVector.copy", "StateVector.cov*", "StateVector.maneuvers*", "StateVector.form:setter", "StateVector.frame:setter"]),
              "what the readers build and the writers convert"),
             (("beyond/orbits/orbit.py", ["Orbit.__new__", "Orbit.propagator*"]), "what the readers build"),
-            (("beyond/dates/date.py", ["Date.strptime", "Date.__init__", "Date._convert_dt", "Date.change_scale", "Date.datetime", "Date._datetime"]), "epochs are parsed and printed through these")],
+            (("beyond/dates/date.py", ["Date.strptime", "Date.__init__", "Date._convert_dt", "Date.change_scale", "Date.datetime", "Date._datetime"]), "epochs are parsed and printed through these"),
+            (_DATE_PRINT, "every epoch of a message is printed with `Date.__format__` (KVN) or `Date.strftime` (XML)"),
+            (("beyond/frames/frames.py", ["Frame.__str__", "Frame.__init__", "get_frame", "<module>#dynamic"]), "`COV_REF_FRAME = {frame}` prints a Frame; the readers look names up with `get_frame`")],
     "C14": [(_FORMS, "the covariance builds its local frames from a cartesian copy of the state"),
             (("beyond/frames/frames.py", ["Frame.transform", "get_frame"]), "the rotation applied to the covariance")],
     "C15": [(_FORMS, "names and aliases are resolved through `Form.alt` and the forms' parameter lists")],
@@ -701,7 +721,7 @@ def deps_rule(chk, done):
             if (rel, key) in seen or rel in files:
                 continue
             bare = key.split(".")[-1].split(":")[0]
-            if bare in DISPLAY_ONLY or key.endswith("#log") or key.endswith("#__all__") or (rel, key.split(":")[0]) in ANCHOR_EXEMPT:
+            if display_only(rel, key) or key.endswith("#log") or key.endswith("#__all__") or (rel, key.split(":")[0]) in ANCHOR_EXEMPT:
                 continue
             if any(fnmatch.fnmatchcase(key, p) for p in patterns):
                 seen.add((rel, key))
